@@ -53,6 +53,7 @@ Fixpoint dec_leaf (fuel : nat) (x : sx) : leaf :=
     match sx_tag x with
     | 0%Z => LNum (dec_obs (sx_arg x 0) (sx_arg x 1)) (sx_n (sx_arg x 2))
     | 5%Z => LWrap (dec_wrapper (sx_arg x 0)) (dec_leaf f (sx_arg x 1))
+    | 6%Z => LFmt (dec_leaf f (sx_arg x 0))
     | 1%Z => LStr (sx_bytes (sx_arg x 0))
     | 2%Z => LEnum (dec_style (sx_arg x 0))
                    (map (fun v => (sx_bytes (sx_nth v 0), dec_obytes (sx_nth v 1))) (sx_list (sx_arg x 1)))
